@@ -19,7 +19,7 @@ EXC_CLASSES = {
     "BaseExceptionGroup": 10, "TypeError": 11, "KeyError": 12, "ValueError": 13,
 }
 CMP = {ast.Eq: 0, ast.NotEq: 1, ast.Lt: 2, ast.LtE: 3, ast.Gt: 4, ast.GtE: 5}
-B = dict(anyinst=17, add=18, isnumber=19, get=16, len=0, append=1, appendleft=2, extend=3, popleft=4, head=5, contains=6, getitem=7, setitem=8, isinstance=9,
+B = dict(delitem=20, movetoend=21, popfirst=22, pair=23, anyinst=17, add=18, isnumber=19, get=16, len=0, append=1, appendleft=2, extend=3, popleft=4, head=5, contains=6, getitem=7, setitem=8, isinstance=9,
          newexc=10, index1=11, values=12, concat=13, dictoftypes=14, type=15)
 
 
@@ -202,6 +202,8 @@ class Tr:
             pv, ev = self.expr(n.value)
             if isinstance(n.slice, ast.Constant) and n.slice.value == 0:
                 return pv, f"(Expr.call {B['head']} {self.lst([ev])})"
+            if isinstance(n.slice, ast.Constant) and n.slice.value == 1 and type(n.slice.value) is int:
+                return pv, f"(Expr.call {B['index1']} {self.lst([ev])})"
             ps, es = self.expr(n.slice)
             if ps:
                 raise Unrecognised("effectful subscript")
@@ -488,6 +490,12 @@ class Tr:
                     if meth == "popleft" and not v.args:
                         p, _e = self.expr(v)
                         return self.seq(p)
+                    if meth == "move_to_end" and len(v.args) == 1 and not v.keywords:
+                        pa, ea = self.expr(v.args[0])
+                        return self.seq(pr + pa + [self.store(v.func.value, f"(Expr.call {B['movetoend']} {self.lst([er, ea])})")])
+                    if meth == "popitem" and not v.args and len(v.keywords) == 1 and v.keywords[0].arg == "last" \
+                            and isinstance(v.keywords[0].value, ast.Constant) and v.keywords[0].value.value is False:
+                        return self.seq(pr + [self.store(v.func.value, f"(Expr.call {B['popfirst']} {self.lst([er])})")])
                     raise Unrecognised(f"container method {meth}")
             p, e = self.expr(s.value)
             return self.seq(p + [f"(Stmt.expr {e})"])
@@ -528,6 +536,14 @@ class Tr:
         if isinstance(s, ast.If):
             p, c = self.expr(s.test)
             return self.seq(p + [f"(Stmt.ite {c} {self.stmts(s.body)} {self.stmts(s.orelse)})"])
+        if isinstance(s, ast.Delete):
+            if len(s.targets) != 1 or not isinstance(s.targets[0], ast.Subscript) \
+                    or self.src(s.targets[0].value) not in self.t.containers:
+                raise Unrecognised(f"del {self.src(s)}")
+            tg = s.targets[0]
+            pr, er = self.expr(tg.value)
+            pk, ek = self.expr(tg.slice)
+            return self.seq(pr + pk + [self.store(tg.value, f"(Expr.call {B['delitem']} {self.lst([er, ek])})")])
         if isinstance(s, ast.While):
             if not (isinstance(s.test, ast.Constant) and s.test.value is True) or s.orelse:
                 raise Unrecognised("while loop other than `while True:`")
